@@ -585,13 +585,16 @@ func eval(n *Node, v *Val) res {
 	case "when":
 		// "When the value at key satisfies constraint, the value at matchKey must
 		// satisfy all additional constraints. If the condition is not met, the
-		// constraint passes."  A missing key has no value: left open.
+		// constraint passes."  The value at a missing key is nil (`get`:
+		// "Returns the value associated with key in a sorted-map, or nil if the
+		// key is not present"), for the guard key and the match key alike: a
+		// guard that accepts nil is satisfied and the clause applies.
 		if v.K != kMap {
 			return rUnk
 		}
 		gv, ok := v.get(n.S)
 		if !ok {
-			return rUnk
+			gv = vNil()
 		}
 		g := eval(n.Kids[0], gv)
 		if g.t == no {
@@ -601,14 +604,13 @@ func eval(n *Node, v *Val) res {
 		if len(n.Kids) > 1 {
 			mv, ok := v.get(n.S2)
 			if !ok {
-				checks = rUnk
-			} else {
-				rs := make([]res, 0, len(n.Kids)-1)
-				for _, c := range n.Kids[1:] {
-					rs = append(rs, eval(c, mv))
-				}
-				checks = andAll(rs)
+				mv = vNil()
 			}
+			rs := make([]res, 0, len(n.Kids)-1)
+			for _, c := range n.Kids[1:] {
+				rs = append(rs, eval(c, mv))
+			}
+			checks = andAll(rs)
 		}
 		if g.t == unk && checks.t != yes {
 			return rUnk
@@ -661,6 +663,10 @@ func truthy(v *Val) tri {
 		return b(v.I > 0)
 	case kFloat:
 		return b(v.F > 0)
+	case kNil:
+		// lang.md: "The value nil is used in the language to represent a false
+		// boolean value" -- nil is not "equivalent to true"
+		return no
 	}
 	return unk
 }
